@@ -26,12 +26,14 @@
 #include <oneapi/tbb/concurrent_map.h>
 #include <oneapi/tbb/concurrent_set.h>
 #include <oneapi/tbb/global_control.h>
+#include <oneapi/tbb/parallel_for.h>
 #include <memory>
 #include <unordered_map>
 
 using namespace vrt;
 
 #if VRT_ASAN
+#include <sanitizer/lsan_interface.h>
 extern "C" const char* __lsan_default_suppressions() { return "leak:vrt::hook_thread\n"; }
 #endif
 
@@ -42,7 +44,6 @@ static std::string g_fail_key, g_fail_detail;
 static void fail(const std::string& key, const std::string& what) {
     if (g_fails.fetch_add(1, std::memory_order_relaxed) == 0) { std::lock_guard<std::mutex> l(g_fail_m); g_fail_key = key; g_fail_detail = what; }
 }
-static std::atomic<long> g_known_overcount{0};   // over-counts of multi count() explainable by concurrent inserts of other keys
 
 // ------------------------------------------------------------------------------------------------ element types
 static std::atomic<long> g_live{0};
@@ -288,6 +289,28 @@ template <class R> static void walk_range(R& r, std::vector<int>& uids, int dept
     for (auto it = r.begin(); it != r.end(); ++it) { uids.push_back(v_tag(*it).uid); if (uids.size() > 100000) return; }
 }
 
+// tbb::parallel_for over range() / const range() must visit every element exactly once; empty() must say whether there are elements
+template <class C> static void parallel_range_check(C& c, const std::vector<std::pair<int, int>>& trav, const std::string& F, int next_uid) {
+    const C& cc = c;
+    for (int pass = 0; pass < 2; pass++) {
+        std::mutex m; std::vector<int> got; bool is_empty;
+        auto body = [&](const auto& r) { std::vector<int> loc; for (auto it = r.begin(); it != r.end(); ++it) { loc.push_back(v_tag(*it).uid); if (loc.size() > 200000) break; } std::lock_guard<std::mutex> l(m); got.insert(got.end(), loc.begin(), loc.end()); };
+        if (pass == 0) { auto rg = c.range(); is_empty = rg.empty(); tbb::parallel_for(rg, body); }
+        else { auto rg = cc.range(); is_empty = rg.empty(); tbb::parallel_for(rg, body); }
+        if (is_empty != trav.empty()) fail(F + (trav.size() == 1 ? ".quiescent.one-element-range-empty" : ".quiescent.range-empty-mismatch"), std::string(pass ? "const " : "") + "range().empty() = " + std::to_string(is_empty) + " for a container with " + std::to_string(trav.size()) + " elements");
+        std::vector<int> want; for (auto& e : trav) want.push_back(e.second);
+        std::sort(want.begin(), want.end()); std::sort(got.begin(), got.end());
+        if (got != want) {
+            std::vector<char> seen((size_t)next_uid + 1, 0); std::string why;
+            for (int u : got) { if (u <= 0 || u > next_uid) { why = "unknown uid " + std::to_string(u); break; } if (seen[u]) { why = "uid " + std::to_string(u) + " visited twice"; break; } seen[u] = 1; }
+            if (why.empty()) for (int u : want) if (u > 0 && u <= next_uid && !seen[u]) { why = "uid " + std::to_string(u) + " never visited"; break; }
+            fail(F + ".range-traversal-miss", std::string("parallel_for over ") + (pass ? "const " : "") + "range() visited " + std::to_string(got.size()) + " elements of " + std::to_string(want.size()) + ": " + why);
+        }
+        result().stat("parallel_range_traversals");
+        result().stat("parallel_range_size_" + std::string(trav.size() > 3 ? "n" : std::to_string(trav.size())));
+    }
+}
+
 template <class C> static void probe_final(Scen& s, Final& f, const std::vector<int>& classes, bool deep) {
     C& c = *(C*)s.cont; const C& cc = c;
     const std::string F = std::string("c12.") + fam(s.kind);
@@ -302,7 +325,9 @@ template <class C> static void probe_final(Scen& s, Final& f, const std::vector<
         if (p.found && v_key(*it) / s.cfg.g != cls) fail(F + ".quiescent.find-wrong-key", "find(" + std::to_string(key) + ") returned an element with key " + std::to_string(v_key(*it)));
         f.per.push_back(p);
     }
-    if (f.cycle || !deep) return;
+    if (f.cycle) return;
+    if (deep || f.trav.size() <= 3) parallel_range_check<C>(c, f.trav, F, s.next_uid);
+    if (!deep) return;
     // recursive splitting of range() must yield the traversal sequence
     {
         auto rg = c.range(); std::vector<int> uids; int pieces = 0;
@@ -399,8 +424,23 @@ template <class C> static void build(Scen& s) {
 template <class C> static void destroy(Scen& s) { delete (C*)s.cont; s.cont = nullptr; }
 template <class C> static size_t buckets(Scen& s) { if constexpr (is_unordered<C>::value) return ((C*)s.cont)->unsafe_bucket_count(); else return 0; }
 
-struct VT { void (*build)(Scen&); void (*run)(Scen&, int); void (*probe)(Scen&, Final&, const std::vector<int>&, bool); void (*mutate)(Scen&, Rng&, std::map<int, int>&); void (*destroy)(Scen&); size_t (*buckets)(Scen&); };
-template <class C> static VT vt() { return VT{ &build<C>, &run_thread<C>, &probe_final<C>, &mutate_quiescent<C>, &destroy<C>, &buckets<C> }; }
+// deterministic part: parallel_for over range() for 0,1,2,3,5,17,100 sequentially inserted elements
+template <class C> static void range_selftest(Scen& s) {
+    const std::string F = std::string("c12.") + fam(s.kind);
+    for (int n : { 0, 1, 2, 3, 5, 17, 100 }) {
+        s.prefill_elems.clear(); s.next_uid = 1;
+        for (int i = 0; i < n; i++) s.prefill_elems.emplace_back((i * 7) % 101, s.next_uid++);
+        build<C>(s);
+        C& c = *(C*)s.cont; std::vector<std::pair<int, int>> trav;
+        for (auto it = c.begin(); it != c.end(); ++it) trav.emplace_back(v_key(*it), v_tag(*it).uid);
+        if ((int)trav.size() != n) fail(F + ".quiescent.lost-element", "sequentially filled container: traversal met " + std::to_string(trav.size()) + " of " + std::to_string(n) + " elements");
+        parallel_range_check<C>(c, trav, F, s.next_uid);
+        destroy<C>(s);
+    }
+}
+
+struct VT { void (*build)(Scen&); void (*run)(Scen&, int); void (*probe)(Scen&, Final&, const std::vector<int>&, bool); void (*mutate)(Scen&, Rng&, std::map<int, int>&); void (*destroy)(Scen&); size_t (*buckets)(Scen&); void (*selftest)(Scen&); };
+template <class C> static VT vt() { return VT{ &build<C>, &run_thread<C>, &probe_final<C>, &mutate_quiescent<C>, &destroy<C>, &buckets<C>, &range_selftest<C> }; }
 static const VT g_vt[CK_N] = { vt<UM>(), vt<US>(), vt<UMM>(), vt<UMS>(), vt<OM>(), vt<OS>(), vt<OMM>(), vt<OMS>(), vt<FS>(), vt<FMS>() };
 
 // ------------------------------------------------------------------------------------------------ generator
@@ -612,14 +652,11 @@ static void check_round(Scen& s, std::map<int, int>& present, const Final& fin, 
             if (!multi) { if (r->count > 1) fail(F + ".unique.count-above-one", rec_str(*r) + ": count() of a unique container returned " + std::to_string(r->count)); }
             else if (r->count < lo) fail(F + ".multi.count-below-completed-inserts", rec_str(*r) + ": " + std::to_string(lo) + " elements of class " + std::to_string(r->cls) + " were present or completely inserted before count() was called");
             else if (r->count > hi) {
-                // KNOWN FINDING (count = equal_range + std::distance over a stale end): explainable iff enough inserts of other keys overlapped the call
+                // repaired defect b27be3f (count = equal_range + std::distance over a stale end): keep the two causes apart in the key
                 long other = 0;
                 for (const Rec* x : all) if (is_insert(x->kind) && x->cls != r->cls && x->thread != r->thread && x->call < r->ret && r->call < x->ret) other++;
-                if (r->count <= hi + other) {
-                    st.known_overcounts++;
-                    if (g_known_overcount.fetch_add(1) < 2)
-                        result().violation(F + ".multi.count-includes-other-keys", rec_str(*r) + ": only " + std::to_string(hi) + " inserts of class " + std::to_string(r->cls) + " had been called before count() returned; " + std::to_string(other) + " inserts of OTHER keys overlapped the call (count() walks equal_range with std::distance, elements linked behind the group meanwhile are counted)", s.describe());
-                } else fail(F + ".multi.count-above-started-inserts", rec_str(*r) + ": only " + std::to_string(hi) + " inserts of class " + std::to_string(r->cls) + " had been called before count() returned and only " + std::to_string(other) + " inserts of other keys overlapped it");
+                if (r->count <= hi + other) { st.known_overcounts++; fail(F + ".multi.count-includes-other-keys", rec_str(*r) + ": only " + std::to_string(hi) + " inserts of class " + std::to_string(r->cls) + " had been called before count() returned; " + std::to_string(other) + " inserts of OTHER keys overlapped the call (elements of other keys linked behind the group while count() walked it were counted)"); }
+                else fail(F + ".multi.count-above-started-inserts", rec_str(*r) + ": only " + std::to_string(hi) + " inserts of class " + std::to_string(r->cls) + " had been called before count() returned and only " + std::to_string(other) + " inserts of other keys overlapped it");
             }
         }
     }
@@ -761,6 +798,14 @@ int main(int argc, char** argv) {
         }
     });
 
+    if (!fixed_scn) for (int k = 0; k < CK_N; k++) {
+        Scen s; s.kind = k; s.init_buckets = 8; long live0 = g_live.load();
+        g_vt[k].selftest(s);
+        if (g_live.load() != live0) fail("c12.life.construct-destroy-imbalance", "range self-test: " + std::to_string(g_live.load() - live0) + " element payloads still alive");
+        if (g_fails.load()) { Json j; j.obj(); j.kv("container", cont_name[k]); j.kv("part", "sequential fill + parallel_for over range()"); j.end_obj(); R.violation(g_fail_key, g_fail_detail.substr(0, 1400), j.s); g_fails.store(0); }
+        R.stat("range_selftests");
+    }
+
     for (long done = 0; done < cases; done++) {
         Scen s; s.seed = fixed_scn ? (uint64_t)fixed_scn : top.next() >> 1;
         Rng r(s.seed);
@@ -802,7 +847,6 @@ int main(int argc, char** argv) {
             R.stat("traversals", st.travs); R.stat("traversals_overlapping_an_insert", st.trav_overlapping_insert); R.stat("traversal_must_see_elements", st.must_see_checked);
             R.stat("overlapping_pairs_same_class", st.overlap_pairs); R.stat("overlapping_insert_pairs_same_class", st.insert_races);
             R.stat("init_bucket_during_concurrent_phase", d162); R.stat("cas_failures_during_concurrent_phase", dcas);
-            if (st.known_overcounts) R.stat("known_multi_count_overcounts", st.known_overcounts);
             if (d162 > 0) R.stat("rounds_with_init_bucket_racing_operations");
             if (deep) R.stat("deep_quiescent_probes");
             R.stat_max("max_elements", (long long)fin.trav.size());
@@ -839,6 +883,9 @@ int main(int argc, char** argv) {
     for (auto& t : pool) t.join();
     watchdog_stop();
     R.stat("hook_delays", (long long)perturb().delays.load());
-    R.write();
-    return 0;
+    // TBB workers (parallel_for over range()) may still pass hook points: leave without running static destructors
+#if VRT_ASAN
+    __lsan_do_leak_check();
+#endif
+    R.finish_and_exit(0);
 }
